@@ -118,6 +118,10 @@ class HTTPStream:
             else:
                 await self._send_error_response(404)
                 self.closed = True
+                # Nothing more will happen on this stream, the
+                # protocol must be told (as after any other response)
+                # so that it closes or idles the connection.
+                self.task_group.spawn(self.send, StreamClosed(stream_id=self.stream_id))
 
         elif isinstance(event, Body):
             await self.app_put(
